@@ -719,29 +719,6 @@ def depth_is_len_minus_1(e, stack_var, lets=None):
 
 # ---------------------------------------------------------------- R15-RENDER
 
-def decode_template(hexs):
-    """Pieces of a lowered `format_args!` template: str for literal text, int index for a default placeholder; None if some
-    placeholder carries options this decoder does not know."""
-    bs = bytes.fromhex(hexs)
-    out = []
-    i = 0
-    nxt = 0
-    while i < len(bs):
-        b = bs[i]
-        if b == 0:
-            return out
-        if b < 0x80:
-            out.append(bs[i + 1:i + 1 + b].decode("utf-8", "replace"))
-            i += 1 + b
-        elif b == 0xC0:
-            out.append(nxt)
-            nxt += 1
-            i += 1
-        else:
-            return None
-    return out
-
-
 class Render(prims.Paths):
     """Paths through the rendering closure; events are write_fmt calls, facts record `children.is_empty()`."""
 
@@ -781,37 +758,11 @@ def pieces_of_write(rd, tm, n):
         return [t[2]] if t[0] == "lit" and t[1] == "char" else None
     if not p.endswith("write_fmt"):
         return None
-    tmpl = None
-    values = None
-    kinds = []
-    for m in walk(a[1]):
-        if m["k"] == "lit" and "bytes" in (m.get("v") or {}):
-            tmpl = m["v"]["bytes"]
-        if m["k"] == "tuple" and values is None and m.get("mb") is not None:
-            values = m["es"]
-        if m["k"] == "call" and cpath(m) and cpath(m).startswith("core::fmt::rt::Argument::new_"):
-            idx = peel(m["args"][0])
-            kinds.append((cpath(m).rsplit("new_", 1)[-1], int(idx["name"]) if idx["k"] == "field" else None))
-    if tmpl is None:
-        # a template without placeholders is lowered to a plain string
-        for m in walk(a[1]):
-            if m["k"] == "lit" and "str" in (m.get("v") or {}):
-                return [m["v"]["str"]]
+    from .. import fmtargs
+    ps = fmtargs.pieces(a[1])
+    if ps is None:
         return None
-    if tmpl == "?":
-        return None
-    dec = decode_template(tmpl)
-    if dec is None:
-        return None
-    out = []
-    for piece in dec:
-        if isinstance(piece, str):
-            out.append(piece)
-        else:
-            if piece >= len(kinds) or values is None or kinds[piece][1] is None or kinds[piece][1] >= len(values):
-                return None
-            out.append((kinds[piece][0], tm.t(values[kinds[piece][1]])))
-    return out
+    return [x if isinstance(x, str) else (x[0], tm.t(x[1])) for x in ps]
 
 
 def render_rule(r, crate):
